@@ -29,6 +29,10 @@ type RealCase struct {
 	Endpoints []string
 	Stale     bool // a certificate of an earlier generation is in the agent
 	Retries   int
+	// NCerts: certificates per CA reply (0 = 1); BigAt > 0: that one (1-based) is a text line longer than 64 KiB
+	NCerts int
+	BigAt  int
+	BigKB  int // size of the big certificate's padding in KiB (0 = 50)
 }
 
 func execReal(c RealCase) (vh.Outcome, error) {
@@ -55,7 +59,7 @@ func execReal(c RealCase) (vh.Outcome, error) {
 	for i, b := range c.Endpoints {
 		ip := fmt.Sprintf("127.0.0.%d", i+2)
 		ips = append(ips, ip)
-		specs = append(specs, vh.CAServerSpec{IP: ip, Behaviour: b, Code: 14, ClientAuth: "request", HangFor: 3 * time.Second})
+		specs = append(specs, vh.CAServerSpec{IP: ip, Behaviour: b, Code: 14, ClientAuth: "request", HangFor: 3 * time.Second, ReplyCerts: c.NCerts, BigAt: c.BigAt, BigPad: c.BigKB << 10})
 		if b == "signreq" && signing < 0 {
 			signing = i
 		}
@@ -147,13 +151,23 @@ func execReal(c RealCase) (vh.Outcome, error) {
 		signedNow += len(s.Calls())
 	}
 	signedNow -= callsBefore
-	desc := fmt.Sprintf("context %s, endpoints %v, retries %d, earlier generation %v", c.Ctx, c.Endpoints, c.Retries, c.Stale)
+	desc := fmt.Sprintf("context %s, endpoints %v, retries %d, earlier generation %v, %d certificate(s) per reply", c.Ctx, c.Endpoints, c.Retries, c.Stale, c.NCerts)
 	if rerr == nil {
 		if newCerts == 0 {
 			return out, vh.Errf("%s: Run reported success but no new certificate is in the agent (%d -> %d certificates; the endpoints received %d request(s))", desc, len(before), len(after), signedNow)
 		}
 		if signing < 0 {
 			return out, vh.Errf("%s: Run reported success although no endpoint signs", desc)
+		}
+		want := c.NCerts
+		if want <= 0 {
+			want = 1
+		}
+		if newCerts != want {
+			return out, vh.Errf("%s: Run reported success; the CA returned %d certificate(s) per reply (number %d padded with %d KiB) but %d new certificate(s) are in the agent", desc, want, c.BigAt, c.BigKB, newCerts)
+		}
+		if c.BigAt > 0 {
+			out.Classes = append(out.Classes, "reply-with-a-certificate-line>64KiB")
 		}
 		return out, nil
 	}
@@ -180,12 +194,17 @@ func execReal(c RealCase) (vh.Outcome, error) {
 
 func TestC04RealSigner(t *testing.T) {
 	vh.Run(t, vh.Spec[RealCase]{Property: "C04", Name: "TestC04RealSigner", Journal: true,
-		Rule: "gensign.Run with the real regular handler and the real crypki.Signer (TLS, gRPC, 1..3 endpoints on loopback aliases out of {certifies the request's key, RPC error, no listener, hangs 3 s}, one try per endpoint; a hanging endpoint only in front of the 150 ms context) under a live, an already cancelled, an already expired and a 150 ms context, with or without an earlier generation of certificates in the agent. Oracle: Run = nil only if a new certificate is in the agent afterwards and some endpoint signs; otherwise a typed error and no new certificate; with a live context and a signing endpoint not preceded by a hanging one the run succeeds. Non-trivial: a context that is not live, or a first endpoint that does not sign.",
+		Rule: "gensign.Run with the real regular handler and the real crypki.Signer (TLS, gRPC, 1..3 endpoints on loopback aliases out of {certifies the request's key, RPC error, no listener, hangs 3 s}, one try per endpoint; a hanging endpoint only in front of the 150 ms context; a signing endpoint answers with 1..3 certificates, in a quarter of the cases one of them a text line longer than 64 KiB - 50 KiB, 200 KiB or 1.2 MiB of padding in an extension) under a live, an already cancelled, an already expired and a 150 ms context, with or without an earlier generation of certificates in the agent. Oracle: Run = nil only if some endpoint signs and every certificate of its reply is in the agent afterwards; otherwise a typed error and no new certificate; with a live context and a signing endpoint not preceded by a hanging one the run succeeds. Non-trivial: a context that is not live, or a first endpoint that does not sign.",
 		Gen: func(t *rapid.T) RealCase {
 			c := RealCase{Ctx: rapid.SampledFrom([]string{"live", "live", "cancelled", "expired", "short"}).Draw(t, "ctx"), Stale: rapid.Bool().Draw(t, "stale"), Retries: 1}
 			n := rapid.IntRange(1, 3).Draw(t, "n")
 			for i := 0; i < n; i++ {
 				c.Endpoints = append(c.Endpoints, rapid.SampledFrom([]string{"signreq", "signreq", "rpcerr", "nolistener"}).Draw(t, fmt.Sprintf("e%d", i)))
+			}
+			c.NCerts = rapid.IntRange(1, 3).Draw(t, "ncerts")
+			if rapid.IntRange(0, 3).Draw(t, "big") == 0 {
+				c.BigAt = rapid.IntRange(1, c.NCerts).Draw(t, "bigAt")
+				c.BigKB = rapid.SampledFrom([]int{50, 50, 200, 1200}).Draw(t, "bigKB")
 			}
 			if c.Ctx == "short" {
 				c.Endpoints[0] = "hang"
